@@ -4,7 +4,7 @@ CONSTANTS
   RLCounts = {1}
   RLMaxRuns = 1
   SmallLen = 7
-  LzwLens = {250, 251, 252, 253, 254, 255, 256, 257, 258, 259, 260, 261, 262, 771, 772, 773, 774, 775, 776, 777, 778, 779, 780, 1793, 1800, 1810, 1815, 1820, 1821, 1822, 1823, 1824, 1825, 1830, 764, 765, 766, 767, 768, 769, 770, 1789, 1790, 1791, 1792, 3837, 3838, 3839, 3840, 4200, 4201, 4300}
+  LzwLens = {3850, 250, 251, 252, 253, 254, 255, 256, 257, 258, 259, 260, 261, 262, 771, 772, 773, 774, 775, 776, 777, 778, 779, 780, 1793, 1800, 1810, 1815, 1820, 1821, 1822, 1823, 1824, 1825, 1830, 764, 765, 766, 767, 768, 769, 770, 1789, 1790, 1791, 1792, 3837, 3838, 3839, 3840, 4200, 4201, 4300}
   BREAK = "none"
 INVARIANTS LZWOK
 CHECK_DEADLOCK FALSE
